@@ -43,16 +43,21 @@ Kinds == {"collection", "simple", "actionsSet", "subCollection", "subSimple"}
 KeyTypes == {"int32", "int64", "string", "bool", "typeref", "enum", "custom", "complex"}
 Rest == {"get", "create", "delete", "update", "partial_update", "batch_get", "batch_create", "batch_delete",
          "batch_update", "batch_partial_update", "get_all"}
+\* (finder_late: a finder whose declared parameters sort AFTER the reserved q; *_params: a rest method that declares query
+\*  parameters of its own, sorting before and after the reserved ids / only before it)
 Extra == {"finder", "finder_paged", "finder_meta", "action", "action_entity", "action_void",
-          "create_ret", "batch_create_ret", "partial_update_ret", "get_all_paged"}
+          "create_ret", "batch_create_ret", "partial_update_ret", "get_all_paged",
+          "finder_late", "get_params", "batch_get_params", "batch_update_params"}
 IsColl(k) == k \in {"collection", "subCollection"}
 Allowed(k) ==
   CASE IsColl(k) -> Rest \cup Extra
-    [] k \in {"simple", "subSimple"} -> {"get", "update", "partial_update", "delete", "action", "action_void", "partial_update_ret"}
+    [] k \in {"simple", "subSimple"} -> {"get", "update", "partial_update", "delete", "action", "action_void", "partial_update_ret", "get_params"}
     [] OTHER -> {"action", "action_void"}
 \* the REST method an Extra variant stands for (at most one variant of a method in one resource)
 Base(mt) == CASE mt = "create_ret" -> "create" [] mt = "batch_create_ret" -> "batch_create"
-              [] mt = "partial_update_ret" -> "partial_update" [] mt = "get_all_paged" -> "get_all" [] OTHER -> mt
+              [] mt = "partial_update_ret" -> "partial_update" [] mt = "get_all_paged" -> "get_all"
+              [] mt = "get_params" -> "get" [] mt = "batch_get_params" -> "batch_get" [] mt = "batch_update_params" -> "batch_update"
+              [] OTHER -> mt
 Consistent(ms) == \A a, b \in ms : Base(a) = Base(b) => a = b
 \* method sets explored: every single method, everything at once (plain variants), everything at once (variants)
 MethodSets(k) == {{mt} : mt \in Allowed(k)} \cup {Allowed(k) \cap (Rest \cup {"finder", "finder_paged", "finder_meta", "action", "action_entity", "action_void"})}
